@@ -35,6 +35,7 @@ type World struct {
 	outf     *os.File
 	Lines    int
 	Steps    int
+	Accepted int // accepted session requests (establishment, modification, deletion)
 	EMSock   *net.UnixListener
 	emConn   *net.UnixConn
 	markers  chan []byte
